@@ -42,6 +42,13 @@ func load(r *run, files []harnessFile) (*loaded, error) {
 		return nil, err
 	}
 	overlay[filepath.Join(r.repo, "pkg", "verifrt", "verifrt.go")] = rt
+	for virt, real := range rtExtraFiles(r) {
+		b, err := os.ReadFile(real)
+		if err != nil {
+			return nil, err
+		}
+		overlay[virt] = b
+	}
 	dirs := map[string]bool{}
 	virtToDir := map[string]string{}
 	for _, f := range files {
@@ -181,4 +188,22 @@ func trimRepo(f string) string {
 		return f[i+6:]
 	}
 	return f
+}
+
+// rtExtraFiles maps /verif/rt/<sub>/*.go to /repo/pkg/verifrt/<sub>/*.go (helper packages of the harness runtime).
+func rtExtraFiles(r *run) map[string]string {
+	out := map[string]string{}
+	ents, _ := os.ReadDir(filepath.Join(r.verif, "rt"))
+	for _, e := range ents {
+		if !e.IsDir() {
+			continue
+		}
+		files, _ := os.ReadDir(filepath.Join(r.verif, "rt", e.Name()))
+		for _, f := range files {
+			if strings.HasSuffix(f.Name(), ".go") {
+				out[filepath.Join(r.repo, "pkg", "verifrt", e.Name(), f.Name())] = filepath.Join(r.verif, "rt", e.Name(), f.Name())
+			}
+		}
+	}
+	return out
 }
